@@ -84,6 +84,22 @@ def sigDump (st : Sig.State) : String :=
   let b := "unreg=" ++ (if us.isEmpty then "-" else ",".intercalate (us.map fun u => s!"{u}:{st.unregCount u}"))
   " ".intercalate (a ++ [b])
 
+/-- what every live signal would invoke in state `st` (the harness asks this from inside the
+unregister function, i.e. between `unlink()` and `~base()` of the dying connection) -/
+def sigCalls (st : Sig.State) : String :=
+  let ss := (List.range maxLists).filter (fun s => st.store.live (.head s))
+  if ss.isEmpty then "-" else ",".intercalate (ss.map fun s => s!"S{s}={callStr st s 1 2}")
+
+def sawSuffix (st : Sig.State) : Sig.Op → String
+  | .disconnect x =>
+    match st.conn x with
+    | some ⟨_, some _⟩ =>
+      match baseUnlink st.store (.elem x) with
+      | .ok σ => " saw=" ++ sigCalls { st with store := σ }
+      | .error f => " saw=fault:" ++ f.name
+    | _ => " saw=-"
+  | _ => ""
+
 /-- the judge: does the abstract state predict the model's walks and liveness? -/
 def specAgrees (σ : Store) (R : Spec.Rings) : Bool :=
   (allNodes.all fun n => σ.live n == decide (n ∈ Spec.nodes R)) &&
@@ -171,7 +187,7 @@ def handle (st : St) (t : List String) : St × String :=
         | .moveCtor s2 s => if st.plain.contains s then s2 :: st.plain.erase s2 else st.plain.erase s2
         | _ => st.plain
       let st' := { st with sig := s', spec := advanceSpec st (sigToListOp op), plain := plain }
-      (st', "ok " ++ sigDump s' ++ specSuffix st')
+      (st', "ok " ++ sigDump s' ++ sawSuffix st.sig op ++ specSuffix st')
     | .error f => ({ st with dead := true }, "fault:" ++ f.name)
   | none =>
   match t with
